@@ -319,6 +319,32 @@ theorem local_lost_result_retry :
     s.pc 0 = .faulted ∧ s.pc 1 = .done ∧ s.pc 2 = .done ∧ s.creates = 1 ∧
       s.calls = [.upload 1 1, .upload 2 1, .upload 1 1, .create 1] := by decide
 
+/-- **local_once_with_crashes**: the in-process counterpart of `dist_once_with_crashes`.  An exception may end a
+thread at ANY program point except the single one between the service's answer to `create_multipart_upload` and
+`self.uploadId = uploadId` (inside the `with` block the lock is released on the way out), any number of threads, anywhere
+in any schedule: every guarantee of `local_once` stays. -/
+theorem local_once_with_crashes (cfg : Local.Cfg) (hr : cfg.recheck = true) (ha : cfg.atomicLock = true)
+    (evs : List Local.Ev) (hc : Local.crashesOutsideWindow cfg Local.init evs = true) :
+    Local.Once (Local.runEv cfg Local.init evs) := by
+  have hI : Local.Inv cfg (Local.runEv cfg Local.init evs) :=
+    Local.runEv_inv cfg hr ha evs _ (Local.inv_init cfg) hc
+  exact ⟨⟨hI.ids.2.2, hI.count⟩, fun t h => by have := hI.pcs t; rw [h] at this; exact this,
+    hI.calls, hI.ids.1, fun t t' h h' => hI.lk.mutex h h',
+    fun t h => ⟨hI.lk.sel t (Local.usesLock_of_inCS h), hI.lk.holds t h⟩, hI.lk.only⟩
+
+/-- non-vacuity: thread 0 dies inside the block right before it would call the service; thread 1 initiates the upload -/
+example :
+    let cfg : Local.Cfg := { kind := fun t => .write (t + 1) }
+    let evs : List Local.Ev := List.replicate 7 (.step 0) ++ [.crash 0] ++ List.replicate 14 (.step 1)
+    Local.crashesOutsideWindow cfg Local.init evs = true ∧ (Local.runEv cfg Local.init evs).pc 1 = .done ∧
+      (Local.runEv cfg Local.init evs).creates = 1 ∧ (Local.runEv cfg Local.init evs).held = none := by decide
+
+/-- … and the excluded point is needed (one step later the same crash orphans upload 1) -/
+theorem local_crash_in_window_cex :
+    let cfg : Local.Cfg := { kind := fun t => .write (t + 1) }
+    let evs : List Local.Ev := List.replicate 8 (.step 0) ++ [.crash 0] ++ List.replicate 14 (.step 1)
+    Local.crashesOutsideWindow cfg Local.init evs = false ∧ (Local.runEv cfg Local.init evs).creates = 2 := by decide
+
 /-- **sink_crash_keeps_all_bytes**: `MPUFileSink.finalise` interrupted after `k ≥ 1` of the listed parts (distinct,
 all written): the destination holds exactly the concatenation of those `k` parts and every later part file is still
 in the parts directory with its content - no byte is lost or duplicated: destination ++ remaining parts = the whole. -/
@@ -382,6 +408,61 @@ theorem sink_finalise_retry_after_crash_cex :
       (Sink.finalise true c [1, 2, 3] false).2 = some .fileNotFound ∧
       (Sink.finalise true c [1, 2, 3] false).1.dst = some [97, 98, 98] ∧
       (Sink.finalise true (s.finaliseCrash [1, 2, 3] 0) [1, 2, 3] false).1.dst = some [97, 98, 98, 99] := by decide
+
+/-- **sink_crash_bytes_prefix**: the append of the next part cut after ANY number `j` of its bytes (after `k ≥ 1`
+complete parts): the destination is the first `k` parts followed by the first `j` bytes of the next - always a PREFIX
+of the final content - and every part from the interrupted one on is still on disk with its whole content. -/
+theorem sink_crash_bytes_prefix (s : Sink) (ps : List Nat) (k j : Nat) (f : Nat → Bytes) (hk : 1 ≤ k)
+    (hk2 : k < ps.length) (hnd : ps.Nodup) (hw : ∀ p ∈ ps, s.lookup p = some (f p)) :
+    (∃ next tl, ps.drop k = next :: tl ∧
+      (s.finaliseCrashBytes ps k j).dst = some ((ps.take k).flatMap f ++ (f next).take j)) ∧
+      (∃ b, (s.finaliseCrashBytes ps k j).dst = some b ∧ b <+: ps.flatMap f) ∧
+      (∀ p ∈ ps.drop k, (s.finaliseCrashBytes ps k j).lookup p = some (f p)) := by
+  have hne : ps ≠ [] := fun e => by rw [e] at hk2; simp at hk2
+  obtain ⟨h1, h2, h3⟩ := sink_crash_keeps_all_bytes s ps k f hk hnd hne hw
+  cases hd : ps.drop k with
+  | nil =>
+    exfalso
+    have := congrArg List.length hd
+    simp at this; omega
+  | cons next tl =>
+    have hnext : (s.finaliseCrash ps k).lookup next = some (f next) := h2 next (hd ▸ List.mem_cons_self)
+    have hdst : (s.finaliseCrashBytes ps k j).dst = some ((ps.take k).flatMap f ++ (f next).take j) := by
+      simp only [Sink.finaliseCrashBytes, hd, List.head?_cons, hnext, h1, Option.map_some]
+    have hlk : ∀ p, (s.finaliseCrashBytes ps k j).lookup p = (s.finaliseCrash ps k).lookup p := by
+      intro p
+      simp only [Sink.finaliseCrashBytes, hd, List.head?_cons, hnext]
+      rfl
+    refine ⟨⟨next, tl, rfl, hdst⟩, ⟨_, hdst, ?_⟩, fun p hp => by rw [hlk]; exact h2 p (hd ▸ hp)⟩
+    rw [← h3, hd, List.flatMap_cons, ← List.append_assoc]
+    exact (List.prefix_append_right_inj _).2 (List.take_prefix j (f next)) |>.trans (List.prefix_append _ _)
+
+/-- non-vacuity: three parts, crash inside the append of the third -/
+example :
+    let s := [(1, [97]), (2, [98, 98]), (3, [99, 99, 99])].foldl Sink.write {}
+    (s.finaliseCrashBytes [1, 2, 3] 2 1).dst = some [97, 98, 98, 99] ∧
+      (s.finaliseCrashBytes [1, 2, 3] 2 1).lookup 3 = some [99, 99, 99] := by decide
+
+/-- **sink_kill_keeps_all_bytes** (the repaired sink, which flushes before it unlinks): a KILL of the process after `k`
+parts is the part-granular crash - destination = first `k` parts, the rest on disk, nothing lost -/
+theorem sink_kill_keeps_all_bytes (s : Sink) (ps : List Nat) (k : Nat) (f : Nat → Bytes) (hk : 1 ≤ k)
+    (hnd : ps.Nodup) (hne : ps ≠ []) (hw : ∀ p ∈ ps, s.lookup p = some (f p)) :
+    (s.finaliseKill true ps k).dst = some ((ps.take k).flatMap f) ∧
+      (∀ p ∈ ps.drop k, (s.finaliseKill true ps k).lookup p = some (f p)) := by
+  have h := sink_crash_keeps_all_bytes s ps k f hk hnd hne hw
+  simp only [Sink.finaliseKill, Bool.true_or, if_true]
+  exact ⟨h.1, h.2.1⟩
+
+/-- **sink_kill_loses_buffered_bytes_cex** (finding, the code as found): parts of 3 and 2 bytes after a first part; the
+process is killed after part 2 was appended and unlinked: the destination holds the first part only, part 2's file is
+gone - its bytes existed only in the process's write buffer.  (The same happens without any kill when the flush at
+close fails, e.g. disk full: every part is already unlinked.)  With the flush before the unlink nothing is lost. -/
+theorem sink_kill_loses_buffered_bytes_cex :
+    let s := [(1, [65, 65, 65, 65]), (2, [98, 98, 98]), (3, [99, 99])].foldl Sink.write {}
+    (s.finaliseKill false [1, 2, 3] 2).dst = some [65, 65, 65, 65] ∧
+      (s.finaliseKill false [1, 2, 3] 2).lookup 2 = none ∧
+      (s.finaliseKill false [1, 2, 3] 2).lookup 3 = some [99, 99] ∧
+      (s.finaliseKill true [1, 2, 3] 2).dst = some [65, 65, 65, 65, 98, 98, 98] := by decide
 
 /-! ## `cancel("all")` and the page size of the listing -/
 
